@@ -54,16 +54,18 @@ theorem finish_missing_positional (m : M) (c : Ctx) (hfa : m.flagArg = none) (hc
   unfold M.completeContext
   simp [hc', hm]
 
-/-- (d) a token after an optional-value flag that could be its value, a task name or a positional -/
+/-- (d) a token after an optional-value flag that could be its value, a task name or a positional
+    (a core flag inside a task context is a flag, not a candidate value) -/
 theorem handle_ambiguous (m : M) (c : Ctx) (a : Arg) (tok : Tok) (hst : m.st ≠ .unknown) (hc : m.ctx = some c)
-    (hf : assoc? tok c.flags = none) (hi : assoc? tok c.inverse = none)
+    (hf : assoc? tok c.flags = none) (hi : assoc? tok c.inverse = none) (hncf : m.coreFlagInTask tok = false)
     (hfa : m.flagArg = some a) (ht : a.takesValue = true) (ho : a.spec.optional = true) (hr : a.raw = none)
     (hamb : c.missingPositional ≠ [] ∨ (m.lookupCtx tok).isSome = true) :
     M.handle m tok = .error (.parse "ambiguous" tok) := by
   have hw : m.waiting = true := by
     unfold M.waiting; simp [hfa, ht, hr]
   unfold M.handle
-  simp only [hst, if_false, hc, hf, hi, Option.isSome_none, Bool.false_eq_true, hw, if_true]
+  simp only [hst, if_false, hc, hf, hi, Option.isSome_none, Bool.false_eq_true, hw, hncf, Bool.and_false, Bool.not_false,
+    Bool.and_self, if_true]
   unfold M.seeValue M.checkAmbiguity
   simp only [hfa, ho, hr, hc]
   rcases hamb with h | h
